@@ -1458,6 +1458,16 @@ func replaceField(o *GType, old, nw *GField) {
 	o.Fields = fs
 }
 
+// DuplicateDirective makes the SDL declare one of its directives twice.
+func DuplicateDirective(r *Rng, s *GSchema) bool {
+	if len(s.Dirs) == 0 {
+		return false
+	}
+	Pick(r, s.Dirs).Twice = true
+	s.Faults = append(s.Faults, "dup-directive")
+	return true
+}
+
 // Misspell returns a near-duplicate of name (edit distance 1-2).
 func Misspell(r *Rng, name string) string {
 	if len(name) == 0 {
